@@ -188,6 +188,9 @@ def spec_globals():
         g[k] = getattr(probables, k)
     from probables.cuckoo.countingcuckoo import CountingCuckooBin
     g["CountingCuckooBin"] = CountingCuckooBin
+    import probables.hashes as _h
+    for k in ("default_fnv_1a", "default_md5", "default_sha256", "fnv_1a", "fnv_1a_32"):
+        g[k] = getattr(_h, k)
     return g
 
 
@@ -291,7 +294,10 @@ def resolve_callable(key, ctx, selfobj):
                 cl = [kw.pop(n) for n in closure]
                 return outer(*cl)(**kw)
             return call, None
-    name = parts[1]
+    name = parts[1].split("@")[0]
+    if c.kind in ("classmethod", "staticmethod") and selfobj is None:
+        klass = spec_globals().get(ctx or parts[0])
+        return getattr(klass, name), None
     if c.kind == "property":
         return (lambda s: getattr(s, name)), selfobj
     if name.startswith("__") and not name.endswith("__"):
@@ -310,6 +316,9 @@ def check_case(key, ctx, case, per_call_timeout=5.0):
     env = dict(args)
     if selfobj is not None:
         env["self"] = selfobj
+    if c.kind == "classmethod":
+        env["cls"] = spec_globals().get(ctx or key.split(".")[0])
+        args.pop("cls", None)
     if case.get("rand") is not None:
         script = list(case["rand"])
         install_random_script(script)
